@@ -2,55 +2,25 @@
    concrete, non-trivial inputs.
 
    1. [ex_program]: a template  var x = 0; while (x < 3) { x = x + 1; }  run through the
-      whole chain of Model.PipelineMirrors with a sample instantiation of the unmirrored
-      stages (a small IR lifting for declarations, assignments to variables and
-      arithmetic): it meets [program_ok], and the chain ends with DROk on a graph with
-      a phi statement at the loop header.
-   2. [ex_pre]: the pre-SSA graph of that template meets the hypotheses of
-      C01_into_ssa_never_panics / C01_into_ssa_fuel_suffices with the children lists
-      of its dominator tree, and into_ssa returns SOk.
+      whole chain of Model.PipelineMirrors (desugarer, renaming + lifting + IR lifting of
+      Model.LiftFull, dominator tree, SSA construction, propagation): it meets
+      [program_ok], and the chain ends with DROk on a graph with a phi statement at the
+      loop header.
+   2. [ex_pre]: the pre-SSA graph of that template (what Model.LiftFull.lift_to_ir returns
+      for the desugared body) meets the hypotheses of C01_into_ssa_never_panics /
+      C01_into_ssa_fuel_suffices with the children lists of its dominator tree, and
+      into_ssa returns SOk.
    3. a decidable form of the file-system hypothesis of C01_includes_never_panic
       ([canon_named_b]) and the file system of C19's example. *)
 From Coq Require Import ZArith NArith List Bool String Ascii Znumtheory.
 Require Import Model.Ast.
-Require Model.Base Model.PipelineMirrors Model.Desugar Model.Ir Model.Includes Model.Dom Model.Ssa Spec.ExpandSpec.
+Require Model.Base Model.PipelineMirrors Model.Desugar Model.Ir Model.Includes Model.Dom Model.Ssa Model.LiftFull Spec.ExpandSpec.
 Require Proofs.PipelineMirrorsProofs Proofs.SsaNoPanic Proofs.SsaFuel Proofs.IncludesProofs Proofs.DomProofs.
 From stdpp Require base numbers list.
 Import ListNotations.
 Module PM := Model.PipelineMirrors.
 Module PP := Proofs.PipelineMirrorsProofs.
 Local Open Scope string_scope.
-
-(* ---- a sample instantiation of the unmirrored IR lifting ---- *)
-Definition bytes (s : string) : Ir.ident := map N_of_ascii (list_ascii_of_string s).
-Definition vn (s : string) : Ir.vname := {| Ir.vn_name := bytes s; Ir.vn_suffix := None; Ir.vn_version := None |}.
-Definition im (m : meta) : Ir.meta := {| Ir.m_start := m_start m; Ir.m_end := m_end m; Ir.m_file := m_file m |}.
-
-Fixpoint ex_expr (e : expression) : option Ir.expr :=
-  match e with
-  | Number _ v => Some (Ir.ENum v Ir.know0)
-  | Variable_ _ n [] => Some (Ir.EVar (vn n) Ir.know0)
-  | InfixOp _ l IAdd r =>
-      match ex_expr l, ex_expr r with Some a, Some b => Some (Ir.EInfix Ir.IAdd a b Ir.know0) | _, _ => None end
-  | InfixOp _ l ILesser r =>
-      match ex_expr l, ex_expr r with Some a, Some b => Some (Ir.EInfix Ir.ILt a b Ir.know0) | _, _ => None end
-  | _ => None
-  end.
-
-Definition ex_stmt (s : statement) : option Ir.stmt :=
-  match s with
-  | Declaration m VVar n [] _ => Some (Ir.SDecl (im m) [vn n] Ir.TLocal [])
-  | Substitution m n [] AssignVar r =>
-      option_map (fun e => Ir.SSubst (im m) (vn n) Ir.OpVar e None (Some Ir.TLocal)) (ex_expr r)
-  | Return m v => option_map (Ir.SRet (im m)) (ex_expr v)
-  | _ => None
-  end.
-
-Definition ex_cond (m : meta) (e : expression) : option (Ir.meta * Ir.expr) :=
-  option_map (fun e' => (im m, e')) (ex_expr e).
-
-Definition ex_head (name : string) (body : statement) : PM.definition_head :=
-  PM.Head Ir.KTemplate [] [(vn "x", Ir.TLocal)].
 
 (* ---- the program ---- *)
 Definition m0 (a b : N) : meta := Meta a b (Some 0%N).
@@ -66,11 +36,12 @@ Definition ex_body : statement :=
           [Substitution (m0 28 38) "x" [] AssignVar (InfixOp (m0 32 37) (x_ 32 33) IAdd (Number (m0 36 37) 1))])].
 
 Definition ex_lib : list (list N) := [[0%N]].
-Definition ex_program : PM.program := PM.Program ex_lib [("T", ex_body)] [].
+Definition ex_def : PM.definition := PM.Def "T" Ir.KTemplate [] (Some 0%N) (10%N, 12%N) ex_body.
+Definition ex_program : PM.program := PM.Program ex_lib [ex_def] [].
 
 (* a file system with one file whose name is its own canonical path *)
 Definition ex_run : Base.outcome (list PM.def_result) :=
-  PM.run_pipeline_mirrors ex_stmt ex_cond ex_head Dom.id_order (fun l => l) 3%Z 9%nat 9%nat
+  PM.run_pipeline_mirrors Dom.id_order (fun l => l) 3%Z 9%nat 9%nat
     (fun q : nat => Some q) (fun _ => false) (fun _ => true) (fun _ => None) (fun a b => b) (fun q => q)
     (fun q => Some q) (fun _ => true) (fun _ => false) (fun _ => false) (fun _ => Includes.Parsed [])
     (fun _ => ex_program) false 5%nat 5%nat [1%nat] [].
@@ -97,11 +68,11 @@ Proof.
   - eexists; eexists; reflexivity.
 Qed.
 
-Lemma ex_program_ok : PP.program_ok ex_stmt ex_cond ex_head Dom.id_order (fun l => l) ex_program.
+Lemma ex_program_ok : PP.program_ok Dom.id_order (fun l => l) ex_program.
 Proof.
   split; [|constructor]. constructor; [|constructor].
   split; [exact ex_wf_template|]. split; [reflexivity|].
-  intros b' H. vm_compute in H. injection H as <-. split; vm_compute; reflexivity.
+  intros b' H. vm_compute in H. injection H as <-. vm_compute. reflexivity.
 Qed.
 
 Lemma ex_orders_ok : DomSpec.order_ok Dom.id_order /\ (forall l : list nat, Permutation.Permutation ((fun l => l) l) l).
@@ -114,28 +85,24 @@ Lemma ex_run_ok :
   end = true.
 Proof. vm_compute. reflexivity. Qed.
 
-(* the numbering of [skel] is the order of [table] on this body (the general fact is
-   Proofs.MirrorsAdapter.keys_ok) and the desugared body lifts to three blocks *)
-Lemma ex_adapter_consistent :
-  PM.size ex_body = List.length (PM.table ex_body) /\
-  match Desugar.desugar_template (Desugar.env_of [("T", ex_body)]) ex_lib ex_body with
-  | Desugar.DOk b => match PM.cfg_of_body ex_stmt ex_cond (ex_head "T" b) b with
-                     | Base.Ok (Some c) => Nat.eqb (List.length (Ir.c_blocks c)) 3
-                     | _ => false
-                     end
-  | _ => false
-  end = true.
-Proof. split; vm_compute; reflexivity. Qed.
-
 (* ---- 2. the pre-SSA graph of the same template ---- *)
+Definition empty_cfg : Ir.cfg := {| Ir.c_kind := Ir.KTemplate; Ir.c_params := []; Ir.c_decls := []; Ir.c_blocks := [] |}.
 Definition ex_pre : Ir.cfg :=
   match Desugar.desugar_template (Desugar.env_of [("T", ex_body)]) ex_lib ex_body with
-  | Desugar.DOk b => match PM.cfg_of_body ex_stmt ex_cond (ex_head "T" b) b with
-                     | Base.Ok (Some c) => c
-                     | _ => {| Ir.c_kind := Ir.KTemplate; Ir.c_params := []; Ir.c_decls := []; Ir.c_blocks := [] |}
+  | Desugar.DOk b => match LiftFull.lift_to_ir Ir.KTemplate [] (Some 0%N) (10%N, 12%N) b with
+                     | Base.Ok c => c
+                     | _ => empty_cfg
                      end
-  | _ => {| Ir.c_kind := Ir.KTemplate; Ir.c_params := []; Ir.c_decls := []; Ir.c_blocks := [] |}
+  | _ => empty_cfg
   end.
+
+(* the desugared body lifts to three blocks holding 2 + 1 + 1 statements (declaration and
+   initialisation; the loop header's IfThenElse; the assignment of the loop body), and the
+   declarations of the graph are the one variable *)
+Lemma ex_pre_shape :
+  map (fun b => List.length (Ir.b_stmts b)) (Ir.c_blocks ex_pre) = [2; 1; 1]%nat /\
+  List.length (Ir.c_decls ex_pre) = 1%nat.
+Proof. split; vm_compute; reflexivity. Qed.
 
 (* the children and frontier lists DominatorTree::new computes for it: block 0 is the
    parent of block 1 (the loop header), which is the parent of block 2 (the body);
